@@ -879,7 +879,7 @@ func c09Random(r *Run, c *Case, rng *Rng) {
 			b.NS = nsB
 		}
 		if rng.Chance(75) {
-			b.F = g4GenFilterWith(rng, 2, g4SafeFilterPaths)
+			b.F = g4GenProg(rng, 2, g4SafeFilterPaths)
 		}
 		if v0 {
 			b.Keep = true // v0 has no keepFullObjectsInMemory option: the documented default applies
